@@ -147,7 +147,12 @@ pub struct Rng(pub u64);
 
 impl Rng {
     pub fn new(seed: u64) -> Rng {
-        Rng(seed.wrapping_mul(0x9E3779B97F4A7C15).wrapping_add(0x1234567))
+        // the state advances by a constant: the seed is hashed first, so that neighbouring seeds do not give the
+        // same stream shifted by a few draws
+        let mut z = seed.wrapping_add(0x632BE59BD9B4E019);
+        z = (z ^ (z >> 30)).wrapping_mul(0xBF58476D1CE4E5B9);
+        z = (z ^ (z >> 27)).wrapping_mul(0x94D049BB133111EB);
+        Rng((z ^ (z >> 31)).wrapping_mul(0x9E3779B97F4A7C15).wrapping_add(0x1234567))
     }
     pub fn next(&mut self) -> u64 {
         self.0 = self.0.wrapping_add(0x9E3779B97F4A7C15);
